@@ -15,6 +15,11 @@ use crate::drv::{hex, unhex};
 use crate::prng::Prng;
 use crate::simfs::SimFs;
 
+thread_local! {
+    /// iterations of calls of `make_room_for_write` that have not returned yet, by call number
+    static ROOM_CALLS: std::cell::RefCell<BTreeMap<u64, Vec<(raindb::verif::RoomView, &'static str)>>> = const { std::cell::RefCell::new(BTreeMap::new()) };
+}
+
 pub const DB_PATH: &str = "/db";
 
 /// foreign files whose names resemble the database's own but do not parse to a file number
@@ -392,6 +397,10 @@ pub struct Stats {
     pub room_rotations: u64,
     pub room_delays: u64,
     pub room_forced: u64,
+    /// whole calls of `make_room_for_write` run through the model (`room.call`)
+    pub room_calls: u64,
+    pub room_calls_with_wait: u64,
+    pub room_max_iterations: u64,
     pub persist_directory_exact: u64,
     pub flushes_below_level0: u64,
     pub output_loops_checked: u64,
@@ -554,6 +563,44 @@ pub fn validate_room(drv: &mut crate::drv::Drv, events: &[Event], obs: &mut Vec<
             }
         }
     }
+    // whole calls: the iterations are grouped by the call number the hook gives them; a call is
+    // complete when one of its iterations returns. The model is run on the views of the call
+    // (`room.call`): its branches must be the recorded ones, the recorded loop variables the
+    // model's (chain), and the hypothesis `Coherent` of C09_make_room_never_spins must hold
+    // (evaluated by coherentB, proved sound: C09_coherentB_sound).
+    ROOM_CALLS.with(|pending| {
+        let mut pending = pending.borrow_mut();
+        for (v, branch) in &items {
+            pending.entry(v.call).or_default().push(((*v).clone(), *branch));
+        }
+        let complete: Vec<u64> = pending.iter().filter(|(_, its)| its.last().map_or(false, |(_, b)| matches!(*b, "errBad" | "proceed" | "errPrevWal"))).map(|(c, _)| *c).collect();
+        for c in complete {
+            let its = pending.remove(&c).unwrap();
+            let req = format!(
+                "room.call {} {}",
+                b(its[0].0.force),
+                its.iter().map(|(v, _)| format!("{},{},{},{},{},{},{},{}", b(v.force), b(v.allow_delay), b(v.bad), v.level0_files, b(v.fits), b(v.empty), b(v.imm), b(v.prev_wal))).collect::<Vec<_>>().join(";")
+            );
+            let ans = drv.ask(&req);
+            if ans == "no-model" {
+                return;
+            }
+            stats.room_calls += 1;
+            stats.room_max_iterations = stats.room_max_iterations.max(its.len() as u64);
+            if its.iter().any(|(_, b)| b.starts_with("wait")) {
+                stats.room_calls_with_wait += 1;
+            }
+            let recorded = its.iter().map(|(_, b)| *b).collect::<Vec<_>>().join(",");
+            let mut parts = ans.split(' ');
+            let model_branches = parts.next().unwrap_or("");
+            let flags: Vec<&str> = parts.collect();
+            if model_branches != recorded || !flags.contains(&"chain=1") {
+                obs.push(Obs { sig: "c09:make-room-outside-the-verified-decision".into(), what: format!("a call of make_room_for_write took the branches [{recorded}]; the model run on what its iterations read answers [{ans}] (request: {req})"), at });
+            } else if !flags.contains(&"coherent=1") {
+                obs.push(Obs { sig: "c09:make-room-state-outside-the-verified-hypothesis".into(), what: format!("a call of make_room_for_write saw a non-empty memtable after its own rotation (hypothesis Coherent of C09_make_room_never_spins; branches [{recorded}], request: {req})"), at });
+            }
+        }
+    });
 }
 
 /// Every deletion pass of the real database against the model's decision per NAME
@@ -1272,6 +1319,7 @@ pub fn run_history(h: &History, checks: &Checks, fs: &SimFs) -> RunOut {
     PERSIST_BUDGET.with(|b| b.set(3));
     raindb::verif::set_seek_events(checks.drv_path.is_some());
     raindb::verif::set_room_events(checks.drv_path.is_some());
+    ROOM_CALLS.with(|p| p.borrow_mut().clear());
     SEEK.with(|t| t.borrow_mut().reset_all());
     TABLE_SIZES.with(|f| *f.borrow_mut() = Some(fs.clone()));
     sched_reset();
